@@ -94,8 +94,17 @@ pub fn u(r: &mut Rng) -> u64 {
 pub fn string(r: &mut Rng) -> String {
     let samples: [&str; 16] = ["", "hello", "Liberation Sans", "a\"b", "back\\slash", "tab\there", "line\nbreak", "cr\rx",
         "caf\u{e9}", "cafe\u{301}", "\u{915}\u{94d}\u{937}\u{93f}", "\u{1f600} emoji", "zero\u{200b}width", "ctrl\u{1}\u{7f}x", "model/part 1.stl", "\\n not newline"];
-    match r.below(4) {
+    match r.below(5) {
         0 | 1 => samples[r.below(16) as usize].to_string(),
+        4 => { // several characters that need escaping, separated by short runs incl. multi-byte characters
+            let k = 2 + r.below(5);
+            let mut out = String::new();
+            for _ in 0..k {
+                for _ in 0..r.below(4) { out.push(*r.pick(&['a', 'Z', '7', ' ', '/', '.', '\u{e9}', '\u{4e2d}', '\u{1f600}'])); }
+                out.push(*r.pick(&['"', '\\', '\n', '\t', '\r', '"', '\\']));
+            }
+            for _ in 0..r.below(3) { out.push(*r.pick(&['x', '\u{e9}', '!'])); }
+            out }
         2 => { // random printable ascii incl quotes/backslashes
             let n = r.below(12); (0..n).map(|_| (32 + r.below(95)) as u8 as char).collect() }
         _ => { // random scalar values without NUL
